@@ -481,7 +481,10 @@ int SQLITE3::Handle::query(const std::string& str, bloc::Tuple& args, bloc::Coll
         sqlite3_bind_text(stmt, i, v.literal()->c_str(), v.literal()->size(), SQLITE_STATIC);
         break;
       case Type::TABCHAR:
-        sqlite3_bind_blob(stmt, i, v.tabchar()->data(), v.tabchar()->size(), SQLITE_STATIC);
+        if (v.tabchar()->empty())
+          sqlite3_bind_zeroblob(stmt, i, 0);
+        else
+          sqlite3_bind_blob(stmt, i, v.tabchar()->data(), v.tabchar()->size(), SQLITE_STATIC);
         break;
       default:
         break;
@@ -550,7 +553,10 @@ int SQLITE3::Handle::exec(const std::string& str, bloc::Tuple& args)
         sqlite3_bind_text(stmt, i, v.literal()->c_str(), v.literal()->size(), SQLITE_STATIC);
         break;
       case Type::TABCHAR:
-        sqlite3_bind_blob(stmt, i, v.tabchar()->data(), v.tabchar()->size(), SQLITE_STATIC);
+        if (v.tabchar()->empty())
+          sqlite3_bind_zeroblob(stmt, i, 0);
+        else
+          sqlite3_bind_blob(stmt, i, v.tabchar()->data(), v.tabchar()->size(), SQLITE_STATIC);
         break;
       default:
         break;
@@ -613,7 +619,10 @@ int SQLITE3::Handle::bind(bloc::Tuple& args)
         sqlite3_bind_text(_stmt, i, v.literal()->c_str(), v.literal()->size(), SQLITE_STATIC);
         break;
       case Type::TABCHAR:
-        sqlite3_bind_blob(_stmt, i, v.tabchar()->data(), v.tabchar()->size(), SQLITE_STATIC);
+        if (v.tabchar()->empty())
+          sqlite3_bind_zeroblob(_stmt, i, 0);
+        else
+          sqlite3_bind_blob(_stmt, i, v.tabchar()->data(), v.tabchar()->size(), SQLITE_STATIC);
         break;
       default:
         break;
